@@ -138,6 +138,10 @@ func main() {
 		}
 	}
 	writeFile(pidF, pid)
+	if dumpF == "" && envDir != "" {
+		// a plugin given NO options at all (`-p name=path`): the request is dumped under the environment's directory
+		dumpF = filepath.Join(envDir, "dump-noctl.json")
+	}
 	if dumpF != "" {
 		for k := 2; k < 100; k++ {
 			if _, err := os.Stat(dumpF); err != nil {
